@@ -480,7 +480,9 @@ func genRaw(r *rng.R) *rawWS {
 			}
 		}
 		if r.Chance(1, 8) {
-			t.Inputs = append(t.Inputs, rng.Pick(r, []string{"../x.txt", "a/../../x.txt", "ok.txt", "a/../ok.txt", "./ok.txt", "/abs.txt", ".."}))
+			t.Inputs = append(t.Inputs, rng.Pick(r, []string{"../x.txt", "a/../../x.txt", "ok.txt", "a/../ok.txt", "./ok.txt", "/abs.txt", "..",
+				// the same as patterns: a glob that reaches out of the package escapes it just as well
+				"../*.txt", "../p/*.txt", "a/../../*.txt", "/tmp/*.txt", "../**/*.txt", "*.txt", "sub/**/*.txt", "a/../*.txt"}))
 		}
 		if r.Chance(1, 6) {
 			t.Tags = append(t.Tags, "testonly")
